@@ -213,6 +213,7 @@ pub struct AdmSwarm {
     pub w_emi: u32,
     pub w_reduce_only_drill: u32,
     pub w_emode_drill: u32,
+    pub w_cap_drill: u32,
 }
 
 impl AdmSwarm {
@@ -244,6 +245,7 @@ impl AdmSwarm {
             w_emi: 0,
             w_reduce_only_drill: 0,
             w_emode_drill: 0,
+            w_cap_drill: 0,
         }
     }
     pub fn adm(rng: &mut Rng) -> Self {
@@ -275,6 +277,7 @@ impl AdmSwarm {
             w_emi: r(0, 4),
             w_reduce_only_drill: r(0, 4),
             w_emode_drill: r(0, 4),
+            w_cap_drill: r(0, 4),
         }
     }
     pub fn emi(rng: &mut Rng) -> Self {
@@ -328,6 +331,7 @@ impl AdmSwarm {
             self.w_emi,
             self.w_reduce_only_drill,
             self.w_emode_drill,
+            self.w_cap_drill,
         ]
     }
     pub fn total(&self) -> u32 {
@@ -656,8 +660,34 @@ pub fn step_adm(sim: &mut Sim, ctx: &mut Ctx, adm: &AdmSwarm) -> Option<Tx> {
             }
             let lbank = model::bank_of(&sim.store, &lb)?;
             let mut entries = lbank.emode.emode_config.entries;
-            let wi = ai * *ctx.rng.pick(&[0.2f64, 0.5, 0.8]);
-            let wm = wi + *ctx.rng.pick(&[0.0f64, 0.01, 0.03]);
+            // variant: an UPGRADE entry on this debt bank plus a second debt in a bank whose table
+            // has no entries at all - reconciliation must then yield no e-mode whatsoever
+            let upgrade = ctx.rng.chance(1, 2);
+            let li: f64 = I80F48::from_le_bytes(lbank.config.liability_weight_init.value).to_num();
+            let (wi, wm) = if upgrade {
+                let wi = f64::min(ai + *ctx.rng.pick(&[0.05f64, 0.1, 0.2]), li * 0.9);
+                (wi, wi + 0.01)
+            } else {
+                let wi = ai * *ctx.rng.pick(&[0.2f64, 0.5, 0.8]);
+                (wi, wi + *ctx.rng.pick(&[0.0f64, 0.01, 0.03]))
+            };
+            if upgrade {
+                let others: Vec<crate::world::BankInfo> = g.banks.iter().filter(|x| x.keys.bank != lb && x.keys.bank != cb && x.staked.is_none()).cloned().collect();
+                if let Some(o) = others.first().cloned() {
+                    sim.stats.fault("drill_emode_second_debt_entryless_table");
+                    let empty = [EmodeEntry { collateral_bank_emode_tag: 0, flags: 0, pad0: [0; 5], asset_weight_init: w(0.0), asset_weight_maint: w(0.0) }; MAX_EMODE_ENTRIES];
+                    let otag = model::bank_of(&sim.store, &o.keys.bank).map(|b| b.emode.emode_tag).unwrap_or(0);
+                    sim.apply(Event::Tx(Tx::one("emode_admin", ix::configure_bank_emode(g.key, g.admins.emode, o.keys.bank, otag, empty))));
+                    let u = ctx.world.users[ui].clone();
+                    if let Some(ta) = u.tokens.get(&o.keys.mint).cloned() {
+                        let rm = crate::world::risk_metas(&sim.store, &ma, Some(o.keys.bank), None);
+                        sim.apply(Event::Tx(Tx::one("user", ix::borrow(&o.keys, ma, u.authority, ta, ctx.rng.range(1, 50), rm))));
+                    }
+                    if sim.violated() && sim.stop_on_violation {
+                        return None;
+                    }
+                }
+            }
             let slot = entries
                 .iter()
                 .position(|e| e.collateral_bank_emode_tag == tag)
@@ -679,6 +709,52 @@ pub fn step_adm(sim: &mut Sim, ctx: &mut Ctx, adm: &AdmSwarm) -> Option<Tx> {
                 return None;
             }
             return borrow_boundary_in(sim, ctx, ui, gi, ma, Some(lb));
+        }
+        26 => {
+            // collateral-value cap drill: the limit admin puts the init-value cap of a held
+            // collateral bank around the dollar value of its current deposits, then a holder who
+            // already owes something searches for the edge of their borrowing power
+            let mut holders: Vec<(usize, Pubkey, Pubkey)> = Vec::new();
+            for (ui, u) in ctx.world.users.iter().enumerate() {
+                for (g2, ma) in &u.maccounts {
+                    if *g2 != gi {
+                        continue;
+                    }
+                    if let Some(acc) = model::account_of(&sim.store, ma) {
+                        for bal in active_balances(&acc) {
+                            if i80(bal.asset_shares) >= I80F48::ONE {
+                                holders.push((ui, *ma, bal.bank_pk));
+                            }
+                        }
+                    }
+                }
+            }
+            if holders.is_empty() {
+                return None;
+            }
+            let (ui, ma, bk) = *ctx.rng.pick(&holders);
+            let cbank = model::bank_of(&sim.store, &bk)?;
+            let view = crate::refm::read_oracle(&sim.store, &cbank, sim.clock).ok()?;
+            use num_traits::ToPrimitive;
+            let total = model::q_w(cbank.total_asset_shares) * model::q_w(cbank.asset_share_value) * &view.ema.price
+                / model::pow10(cbank.mint_decimals as u32);
+            let dollars = total.floor().to_integer().to_u64().unwrap_or(u64::MAX / 4).max(2);
+            let cap = match ctx.rng.below(4) {
+                0 => dollars / 2,
+                1 => dollars.saturating_sub(1),
+                2 => dollars.saturating_add(1),
+                _ => dollars / 10,
+            }
+            .max(1);
+            sim.stats.fault("drill_init_value_cap_near_deposits");
+            sim.apply(Event::Tx(Tx::one(
+                "limit_admin",
+                ix::configure_bank_limits_only(g.key, g.admins.limit, bk, None, None, Some(cap)),
+            )));
+            if sim.violated() && sim.stop_on_violation {
+                return None;
+            }
+            return borrow_boundary_for(sim, ctx, ui, gi, ma);
         }
         24 => {
             // reduce-only drill: a bank somebody holds as collateral goes reduce-only, then that
